@@ -409,3 +409,96 @@ impl Stream for RawS {
         world::leaf_size_hint(self.0 .0)
     }
 }
+
+// ------------------------------------------------------------------ more value types
+// Mixed instantiations: code may consult `mem::needs_drop` of one type
+// parameter where it means another, or rely on the layout of a tuple of
+// outputs. `Nz` has a niche and no destructor (like `char`, `NonZeroU32`,
+// references), `Wide` is a 16-byte, 8-aligned value with a destructor; `ErrRawR`
+// is a fallible future whose *error* type has no destructor while its Ok type has.
+
+#[derive(Clone, Copy, Debug)]
+pub struct Nz(pub core::num::NonZeroU32);
+
+#[derive(Debug)]
+pub struct Wide {
+    pub pad: u64,
+    pub id: u32,
+}
+impl Drop for Wide {
+    fn drop(&mut self) {
+        world::tok_dropped(self.id);
+    }
+}
+
+fn nz(v: Val) -> Nz {
+    let r = raw(v);
+    Nz(core::num::NonZeroU32::new(r.0).unwrap_or(core::num::NonZeroU32::MAX))
+}
+fn wide(v: Val) -> Wide {
+    let id = v.id;
+    std::mem::forget(v);
+    Wide { pad: 0x5a5a_a5a5_0f0f_f0f0, id }
+}
+
+macro_rules! conv_leaves {
+    ($F:ident, $R:ident, $S:ident, $T:ty, $conv:ident) => {
+        #[derive(Debug)]
+        pub struct $F(pub DropMark);
+        #[derive(Debug)]
+        pub struct $R(pub DropMark);
+        #[derive(Debug)]
+        pub struct $S(pub DropMark);
+        impl Future for $F {
+            type Output = $T;
+            fn poll(self: Pin<&mut Self>, cx: &mut Context<'_>) -> Poll<$T> {
+                match world::leaf_poll(self.0 .0, cx) {
+                    LeafOut::Pending => Poll::Pending,
+                    LeafOut::Yield(t, _) => Poll::Ready($conv(t)),
+                    LeafOut::End => unreachable!(),
+                }
+            }
+        }
+        impl Future for $R {
+            type Output = Result<$T, Val>;
+            fn poll(self: Pin<&mut Self>, cx: &mut Context<'_>) -> Poll<Self::Output> {
+                match world::leaf_poll(self.0 .0, cx) {
+                    LeafOut::Pending => Poll::Pending,
+                    LeafOut::Yield(t, true) => Poll::Ready(Ok($conv(t))),
+                    LeafOut::Yield(t, false) => Poll::Ready(Err(t)),
+                    LeafOut::End => unreachable!(),
+                }
+            }
+        }
+        impl Stream for $S {
+            type Item = $T;
+            fn poll_next(self: Pin<&mut Self>, cx: &mut Context<'_>) -> Poll<Option<$T>> {
+                match world::leaf_poll(self.0 .0, cx) {
+                    LeafOut::Pending => Poll::Pending,
+                    LeafOut::Yield(t, _) => Poll::Ready(Some($conv(t))),
+                    LeafOut::End => Poll::Ready(None),
+                }
+            }
+            fn size_hint(&self) -> (usize, Option<usize>) {
+                world::leaf_size_hint(self.0 .0)
+            }
+        }
+    };
+}
+conv_leaves!(NzF, NzR, NzS, Nz, nz);
+conv_leaves!(WideF, WideR, WideS, Wide, wide);
+
+/// fallible future whose error type has no destructor
+#[derive(Debug)]
+pub struct ErrRawR(pub DropMark);
+impl Future for ErrRawR {
+    type Output = Result<Val, Raw>;
+    fn poll(self: Pin<&mut Self>, cx: &mut Context<'_>) -> Poll<Self::Output> {
+        match world::leaf_poll(self.0 .0, cx) {
+            LeafOut::Pending => Poll::Pending,
+            LeafOut::Yield(t, true) => Poll::Ready(Ok(t)),
+            LeafOut::Yield(t, false) => Poll::Ready(Err(raw(t))),
+            LeafOut::End => unreachable!(),
+        }
+    }
+}
